@@ -112,3 +112,58 @@ func VH_C10_step_curves_Q() {
 		}
 	}
 }
+
+// vhOnChord: the control point c lies on the segment from s to e (so the curve traces the
+// straight segment) - exactly collinear and between the end points.
+func vhOnChord(s, e, c Point) bool {
+	d := e.Sub(s)
+	v := c.Sub(s)
+	perp := d.X*v.Y - d.Y*v.X
+	dot := d.X*v.X + d.Y*v.Y
+	return perp == 0 && 0 <= dot && dot <= d.X*d.X+d.Y*d.Y
+}
+
+// C10: QuadTo/CubeTo may replace the curve by a line only when that does not change the traced
+// geometry, i.e. when every control point lies on the chord between start and end.  Start and end
+// are concrete, the control points are start + t*(end-start) + u*perp(end-start) with symbolic t
+// and u (u exactly 0 or |u| >= 0.01), which keeps the collinearity decision linear.
+func VH_C10_curve_degrade_Q() {
+	vStub("math.Hypot", vhHypotQ)
+	vStub("math.Atan2", vhAtan2GP)
+	vStub("math.Mod", vhMod2Pi)
+	ends := [3]Point{{3, 4}, {4, 0}, {0, -2}}
+	e := ends[vChoose(0, 2)]
+	n := Point{-e.Y, e.X}
+	cp := func() Point {
+		t := vNondetF64()
+		vAssume(-2 <= t && t <= 3)
+		u := 0.0
+		if vChoose(0, 1) == 1 {
+			u = vNondetF64()
+			vAssume((0.01 <= u && u <= 2) || (-2 <= u && u <= -0.01))
+		}
+		// keep clear of the Equal() tolerance at the end points
+		vAssume(u != 0 || ((t <= -1e-3 || t >= 1e-3 || t == 0) && (t <= 1-1e-3 || t >= 1+1e-3 || t == 1)))
+		return Point{t*e.X + u*n.X, t*e.Y + u*n.Y}
+	}
+	p := &Path{}
+	p.MoveTo(0, 0)
+	if vChoose(0, 1) == 0 {
+		c := cp()
+		p.QuadTo(c.X, c.Y, e.X, e.Y)
+		last := p.d[len(p.d)-1]
+		vAssert("C10.degrade.quad_kind", last == QuadToCmd || last == LineToCmd)
+		if last == LineToCmd {
+			vAssert("C10.degrade.quad_line_only_if_control_on_chord", vhOnChord(Point{}, e, c))
+		}
+	} else {
+		c1, c2 := cp(), cp()
+		p.CubeTo(c1.X, c1.Y, c2.X, c2.Y, e.X, e.Y)
+		last := p.d[len(p.d)-1]
+		vAssert("C10.degrade.cube_kind", last == CubeToCmd || last == LineToCmd)
+		if last == LineToCmd {
+			vAssert("C10.degrade.cube_line_only_if_controls_on_chord", vhOnChord(Point{}, e, c1) && vhOnChord(Point{}, e, c2))
+		}
+	}
+	vAssert("C10.degrade.pen", vhPtEq(p.Pos(), e))
+}
